@@ -73,6 +73,22 @@ pub fn spans(bytes: &[u8], grammar: &[Field]) -> Option<Vec<Span>> {
     Some(out)
 }
 
+/// eight-byte length values for a vint64 prefix in its nine-byte form: the largest values, and values that make
+/// "position + length" wrap around 2^64 (content_at = offset of the first content byte, len = honest content length)
+fn wide_len(which: &str, content_at: u64, len: u64) -> Option<u64> {
+    Some(match which {
+        "max" => u64::MAX,
+        "max-1" => u64::MAX - 1,
+        "wrap" => 0u64.wrapping_sub(content_at),
+        "wrap+len" => 0u64.wrapping_sub(content_at).wrapping_add(len),
+        "wrap-1" => 0u64.wrapping_sub(content_at).wrapping_sub(1),
+        "2^63" => 1u64 << 63,
+        "2^32" => 1u64 << 32,
+        "2^31" => 1u64 << 31,
+        _ => return None,
+    })
+}
+
 /// Shape mutations inside a serialized batch Merkle opening (vector count byte, then per vector a digest count byte and the
 /// digests); the outer length prefix is kept consistent. `dl` = serialized digest length.
 fn apply_inner_paths(bytes: &[u8], s: &Span, m: &str, dl: usize) -> Option<Vec<u8>> {
@@ -229,12 +245,42 @@ pub fn apply(bytes: &[u8], sp: &[Span], mu: &Mutation, chunk: usize) -> Option<V
             b.extend([7u8, 1, 2, 3]); // vint64(3), then three bytes
             return Some(b);
         }
+        if let Some(which) = mu.m.strip_prefix("set-some-wide:") {
+            // tag set, followed by a nine-byte vint64 length (first byte 0) that no input can satisfy
+            if v != 0 || s.off + 1 != b.len() {
+                return None;
+            }
+            b[s.off] = 1;
+            let content_at = (s.off + 10) as u64;
+            let l = wide_len(which, content_at, 3)?;
+            b.push(0);
+            b.extend(l.to_le_bytes());
+            b.extend([1u8, 2, 3]);
+            return Some(b);
+        }
         if mu.m == "set-none" {
             if v != 1 || s.name != "gkr.tag" {
                 return None;
             }
             b[s.off] = 0;
             b.truncate(s.off + 1);
+            return Some(b);
+        }
+        if let Some(x) = mu.m.strip_prefix("add:") {
+            // 64-bit scalars: the value shifted by a field modulus or a limb boundary (aliases of a value reduced modulo a field)
+            if s.width != 8 {
+                return None;
+            }
+            let d: u64 = match x {
+                "p64" => 0xffff_ffff_0000_0001,
+                "p62" => 0x3fff_c880_0000_0001,
+                "2^32" => 1 << 32,
+                "2^62" => 1 << 62,
+                "2^63" => 1 << 63,
+                _ => return None,
+            };
+            let nv = v.checked_add(d)?;
+            wr(&mut b, s.off, s.width, nv);
             return Some(b);
         }
         if let Some(x) = mu.m.strip_prefix("set:") {
@@ -296,6 +342,14 @@ pub fn apply(bytes: &[u8], sp: &[Span], mu: &Mutation, chunk: usize) -> Option<V
             wr(&mut b, s.off, s.width, s.len as u64 - 1)
         },
         "prefix-max" => wr(&mut b, s.off, s.width, maxv),
+        m if m.starts_with("prefix-wide:") => {
+            if !vint {
+                return None;
+            }
+            let l = wide_len(&m["prefix-wide:".len()..], (s.off + 9) as u64, s.len as u64)?;
+            // the one-byte prefix becomes the nine-byte form; the content stays
+            b.splice(s.off..s.off + 1, std::iter::once(0u8).chain(l.to_le_bytes()));
+        },
         "prefix-wide" => {
             if !vint || b.len() < s.off + 9 {
                 // make room for the eight length bytes that a zero first byte announces
